@@ -381,7 +381,17 @@ def saveload_rule(ctx):
     sm, sc = info(save)
     lm, lc = info(load)
     if sc is None or lc is None:
-        return None  # unrecognised implementation: not decided here
+        # unrecognised implementation: not decided here -- except for the definite cases: a save that never hands
+        # its model argument to any call writes nothing, a load that returns nothing loads nothing
+        margs = [a.arg for a in save.args.args]
+        mname = margs[1] if len(margs) > 1 else None
+        uses_model = any(isinstance(c, ast.Call) and any(isinstance(x, ast.Name) and x.id == mname for a in list(c.args) + [k.value for k in c.keywords] for x in ast.walk(a)) for c in ast.walk(save))
+        definite = []
+        if sc is None and not uses_model:
+            definite.append((save.lineno, "save never passes its model argument to any call: nothing is written"))
+        if lc is None and not any(isinstance(n, ast.Return) and n.value is not None and not (isinstance(n.value, ast.Constant) and n.value.value is None) for n in ast.walk(load)):
+            definite.append((load.lineno, "load returns nothing"))
+        return definite or None
     if sc[0] != "equinox.tree_serialise_leaves" or lc[0] != "equinox.tree_deserialise_leaves":
         out.append((save.lineno, "save/load do not use the matching tree_serialise_leaves / tree_deserialise_leaves pair (%s / %s)" % (sc[0], lc[0])))
     if sm is None or "b" not in sm or "w" not in sm:
